@@ -145,7 +145,7 @@ impl Property for C10 {
     }
     fn runs(&self, tier: Tier) -> usize {
         match tier {
-            Tier::Quick => 8000,
+            Tier::Quick => 24_000,
             Tier::Thorough => 60_000,
         }
     }
